@@ -270,12 +270,20 @@ pub fn configs(prop: &str, thorough: bool) -> Vec<(Cfg, Option<usize>)> {
             }
             // (a-) a proposal that lists the very same message twice in a row (two equal instalments), and the proposer
             // itself as the caller of Close before and after expiry
-            for flex in [false, true] {
-                let mut c = Cfg::base(&format!("C05/{}/count2/Anyone/height/repeated-message+proposer-closes", if flex { "flex" } else { "fixed" }), flex);
+            for (flex, per, cnt) in [(false, Per::H(2), 2u64), (true, Per::H(2), 2), (false, Per::T(2 * DT), 2), (true, Per::T(2 * DT), 1), (false, Per::H(2), 1)] {
+                // (time-based periods too; with count 1 the proposer's own weight decides at creation)
+                let tag = if per == Per::H(2) { "height" } else { "time" };
+                let name = if per == Per::H(2) && cnt == 2 {
+                    format!("C05/{}/count2/Anyone/height/repeated-message+proposer-closes", if flex { "flex" } else { "fixed" })
+                } else {
+                    format!("C05/{}/count{cnt}/Anyone/{tag}/repeated-message+proposer-closes", if flex { "flex" } else { "fixed" })
+                };
+                let mut c = Cfg::base(&name, flex);
+                c.period = per;
                 c.props = Props { c05: true, c03: true, ..Default::default() };
                 c.actors = vec!["A", "B", "Z", "X"];
                 c.voters = vec![(0, 1), (1, 1), (2, 0)];
-                c.th = Th::Count(2);
+                c.th = Th::Count(cnt);
                 c.max_props = 1;
                 c.kinds = vec![PK::TagTwice];
                 c.votes = vec![VoteA::Yes, VoteA::No];
@@ -807,6 +815,50 @@ pub fn configs(prop: &str, thorough: bool) -> Vec<(Cfg, Option<usize>)> {
                 c.editors = vec![4];
                 c.max_edits = 2;
                 c.hooked = true;
+                out.push((c, None));
+            }
+            // the group is changed in the very block in which a deposit-paying proposal is opened (the proposal then
+            // records the group's current total while voters keep their start-of-block weights): whatever the tally
+            // does, the deposit goes back at most once
+            {
+                let mut c = Cfg::base("C15/A2,B2,C5/count4/native/refund=true/group-changed-in-the-opening-block", true);
+                c.props = p.clone();
+                c.actors = vec!["A", "B", "C", "X", "ADM"];
+                c.group_admin = 4;
+                c.voters = vec![(0, 2), (1, 2), (2, 5)];
+                c.th = Th::Count(4);
+                c.deposit = Dep::Native { amount: 2, refund: true };
+                c.max_props = 2;
+                c.proposers = vec![0, 1];
+                c.votes = vec![VoteA::Yes, VoteA::No];
+                c.voters_acting = vec![1, 2];
+                c.executors = vec![3];
+                c.closers = vec![3];
+                c.blocks = 2;
+                c.purse = 4;
+                c.funds = vec![vec![(0, 2)]];
+                c.edits = vec![GroupEdit { remove: vec![], add: vec![(2, 1)] }];
+                c.editors = vec![4];
+                c.max_edits = 1;
+                out.push((c, None));
+            }
+            // a group whose members all have weight 0 (nobody can vote): the proposal expires and Close must still
+            // return the deposit
+            for (tn, th) in [("pct51", Th::Pct(pct(510_000_000))), ("q51-50", Th::Quorum { t: pct(510_000_000), q: pct(500_000_000) })] {
+                let mut c = Cfg::base(&format!("C15/A0,B0/{tn}/native/refund=true/weightless-group"), true);
+                c.props = p.clone();
+                c.voters = vec![(0, 0), (1, 0)];
+                c.th = th;
+                c.deposit = Dep::Native { amount: 2, refund: true };
+                c.max_props = 1;
+                c.proposers = vec![0];
+                c.votes = vec![VoteA::Yes, VoteA::No];
+                c.voters_acting = vec![1];
+                c.executors = vec![3];
+                c.closers = vec![0, 3];
+                c.blocks = 3;
+                c.purse = 4;
+                c.funds = vec![vec![(0, 2)]];
                 out.push((c, None));
             }
             // a multisig configured with a voting period of zero: whatever Propose does, no deposit may get stuck
